@@ -323,17 +323,35 @@ def check(R, F):
         rows = tables.table(ap, sw[0][0])
         want = {2: 0, 3: 0, 4: 0, 7: 0, 15: 2, 33: 6}
         seen = {}
+        rn_calls = [(b, t) for b, t in ap.calls() if callee_name(t).endswith(Q + 'read_name_from_rdata')]
+        ex_calls = [b for b, t in ap.calls() if callee_name(t).endswith(Q + 'execute_allowing_truncation')]
         for r in rows:
             offs = set()
-            for name, cargs, b in r['calls']:
-                if name.endswith(Q + 'read_name_from_rdata'):
-                    m = re.match(r'^(\d+)_usize$', cargs[1] or '')
+            # offsets used by this arm: a constant argument of a read_name_from_rdata call inside the arm, or a constant
+            # the arm assigns to the variable that a later, shared call passes as the offset
+            for b, t in rn_calls:
+                a = t['args'][1]
+                reach = ap.find_path(r['target'], lambda x, b=b: x == b) is not None
+                if not reach:
+                    continue
+                if a['k'] == 'const':
+                    if b in r['region']:
+                        m = re.match(r'^(\d+)_usize$', const_name(a))
+                        offs.add(int(m.group(1)) if m else None)
+                    continue
+                l = ap.canon(a['pl'])['l'] if is_place(a) else None
+                ds = [d for d in ap.defs().get(l, []) if not ap.blocks[d[0]]['cleanup']] if l is not None else []
+                mine = [d for d in ds if d[0] in r['region'] or d[0] == r['target']]
+                for d in mine:
+                    rv = d[3].get('rv') if d[2] == 'assign' else None
+                    m = re.match(r'^(\d+)_usize$', const_name(rv['op'])) if rv and rv['k'] == 'use' and rv['op']['k'] == 'const' else None
                     offs.add(int(m.group(1)) if m else None)
-            uses_exec = any(name.endswith(Q + 'execute_allowing_truncation') for name, cargs, b in r['calls'])
+            uses_exec = any(ap.find_path(r['target'], lambda x, e=e: x == e) is not None for e in ex_calls) and bool(offs)
             for v in r['values']:
                 seen[v] = (offs, uses_exec)
             if r['otherwise']:
-                R.require(not offs and not uses_exec, 'additional', Q + 'do_additional_section_processing|other-types', ap.where(r['target']), 'no processing for other types', 'fall-through arm performs additional-section processing')
+                reach_rn = any(ap.find_path(r['target'], lambda x, b=b: x == b) is not None for b, t in rn_calls)
+                R.require(not reach_rn, 'additional', Q + 'do_additional_section_processing|other-types', ap.where(r['target']), 'no processing for other types', 'fall-through arm performs additional-section processing')
         for v, off in sorted(want.items()):
             got = seen.get(v)
             R.require(got is not None and got[0] == {off} and got[1], 'additional', Q + 'do_additional_section_processing|type-%d' % v, ap.where(),
